@@ -37,6 +37,9 @@ def shard_main(args):
     budget = float(os.environ.get("VERIF_BUDGET_S", QUICK_BUDGET if args.tier == "quick" else THOROUGH_BUDGET))
     ctx = Ctx(args.prop, args.tier, args.seed, args.shard, args.nshards, time_budget=budget)
     load.nc()
+    import logging
+
+    logging.getLogger().addHandler(logging.NullHandler())  # keep netconan's warnings off stderr
     status = "ok"
     err = None
     try:
